@@ -107,7 +107,10 @@ def fstr (x : Float32) : Str :=
   else if x.abs < ofRat ((1 : Rat) / 10000) then ['0']
   else
     let q := toRat x
-    if Num.isInt q then Str.intToStr q.num
+    -- `x == (x as i32) as f32`: the cast saturates, and `i32::MAX as f32` rounds up to 2^31, so exactly
+    -- 2^31 takes the integer path and is written as `i32::MAX`
+    if q == 2147483648 then cs!"2147483647"
+    else if Num.isInt q then Str.intToStr q.num
     else Num.trimEndMatches '.' (Num.trimEndMatches '0' (Num.fmt3 q))
 
 def trunc (x : Float32) : Float32 := if isNeg x then x.ceil else x.floor
